@@ -11,9 +11,9 @@ if ! git apply --check $D/patch.diff; then echo "PATCH DOES NOT APPLY"; exit 1; 
 # without the change: demo must pass
 mkdir -p tests; cp $D/$DEMO tests/ 2>/dev/null || cp $D/demo*.rs tests/
 DEMO=$(ls tests/ | grep -i demo | head -1); T=${DEMO%.rs}
-cargo test --offline --features verif-hooks --test $T 2>&1 | grep -E "^test result|error" | head -3 | sed 's/^/WITHOUT: /'
+cargo test --offline --features verif-hooks --test $T 2>&1 | grep -E "^test result|^error" | head -3 | sed 's/^/WITHOUT: /'
 git apply $D/patch.diff
-cargo test --offline --features verif-hooks --test $T 2>&1 | grep -E "^test result|error" | head -3 | sed 's/^/WITH:    /'
+cargo test --offline --features verif-hooks --test $T 2>&1 | grep -E "^test result|^error" | head -3 | sed 's/^/WITH:    /'
 mv tests/$DEMO /tmp/mut/$1/.demo_aside.rs
 cargo test --workspace --no-fail-fast --offline 2>&1 | grep -E "^test result: .* [1-9][0-9]* passed|FAILED|warning: unused" | head -5 | sed 's/^/SUITE:   /'
 mv /tmp/mut/$1/.demo_aside.rs tests/$DEMO
